@@ -72,6 +72,16 @@ def _m(p, n, b):
         return True
     if type(p) is not type(n):
         return False
+    if isinstance(p, ast.Compare) and len(p.ops) == 1 and isinstance(p.ops[0], (ast.Eq, ast.NotEq)) \
+            and len(n.ops) == 1 and type(n.ops[0]) is type(p.ops[0]):
+        # == and != are matched commutatively
+        for (nl, nr) in ((n.left, n.comparators[0]), (n.comparators[0], n.left)):
+            trial = dict(b)
+            if _m(p.left, nl, trial) and _m(p.comparators[0], nr, trial):
+                b.clear() if False else None
+                b.update(trial)
+                return True
+        return False
     for field in p._fields:
         if field in ("ctx", "type_comment", "kind"):
             continue
